@@ -122,7 +122,8 @@ func genStallProviders(rng *rand.Rand, sc *sim.Scenario, retryable bool) {
 		s := pick(rng, opts...)
 		script := []string{s}
 		if retryable && (s == "refuse" || s == "closeEarly" || s == "garbage") {
-			script = []string{s, pick(rng, opts...), pick(rng, opts...)}
+			// a provider that first fails fast and then hangs: the budget is per provider, not per attempt
+			script = []string{s, pick(rng, append(opts, "stallBeforeHeaders", "stallAfterHeaders", "stallBeforeHeaders")...), pick(rng, opts...)}
 		}
 		sc.HTTP = append(sc.HTTP, sim.HTTPPlan{Provider: p, Script: script})
 	}
@@ -242,6 +243,34 @@ func (c08) Check(out *sim.Outcome, ri *RunInfo) []Violation {
 			bound = lookupBound
 		default:
 			continue
+		}
+		if c.Entry == "get_public_ip" || c.Entry == "fetcher_get_ip" {
+			// the budget is per provider: from the first connection to a provider until the client has
+			// let go of the last one, at most the 2 s of the property's anchor (+ slack)
+			first, last := map[int]time.Duration{}, map[int]time.Duration{}
+			for _, hc := range out.W.HTTPConns() {
+				if hc.Provider < 0 {
+					continue
+				}
+				if _, ok := first[hc.Provider]; !ok || hc.DialAt < first[hc.Provider] {
+					first[hc.Provider] = hc.DialAt
+				}
+				end := hc.ClosedAt
+				if end < hc.DialAt {
+					end = hc.DialAt
+				}
+				if end > last[hc.Provider] {
+					last[hc.Provider] = end
+				}
+			}
+			if max(c.Repeat, 1) == 1 {
+				for p, f := range first {
+					if d := last[p] - f; d > 2*time.Second+500*time.Millisecond {
+						vs = append(vs, Violation{Rule: "C08.bound:provider", Detail: fmt.Sprintf("provider %d kept the call busy for %v of virtual time (first connection at %v, last one released at %v), the per-provider budget is 2 s", p, d, f, last[p]),
+							Facts: facts("entry", c.Entry, "family", family)})
+					}
+				}
+			}
 		}
 		bound += time.Millisecond
 		stalled := len(out.Sc.HTTP) > 0 || len(out.Sc.DNS) > 0 || len(out.Sc.Noise) > 0 || c.CancelAtUs > 0
